@@ -144,8 +144,10 @@ Plants == {[cls |-> "regular", code |-> c] : c \in AllCodes} \cup {[cls |-> "reg
           \* violations that the source itself suppresses with one `@ignore IMM01, CTOR01` / `@ignore TONL, PKGO02` directive each:
           \* they are invisible under every configuration (excluding one of the codes project-wide does not revive the other)
           \cup {[cls |-> "ignored", code |-> c] : c \in {"IMM01", "CTOR01", "TONL02", "PKGO02"}}
+          \* uses of @testonly items inside a function that is itself @testonly (non-test file): exempt under every configuration
+          \cup {[cls |-> "tctx", code |-> c] : c \in {"TONL01", "TONL02", "TONL03"}}
 
-Skip(cls, c) == \/ cls = "ignored"
+Skip(cls, c) == \/ cls \in {"ignored", "tctx"}
                 \/ cls = "test" /\ ~c.scan
                 \/ cls = "tdpath" /\ "testdata" \in c.paths
                 \/ cls = "tdtest" /\ (~c.scan \/ "testdata" \in c.paths)
